@@ -436,7 +436,7 @@ func scenarioC08Random(c *Ctx, r *Rng, idx int) {
 	if after := c08LogLen(w); after != finalLen {
 		fail("silent-after-close", fmt.Sprintf("%d reporter calls after Close returned (later Close / recording on old handles)", after-finalLen))
 	}
-	deadline := time.Now().Add(500 * time.Millisecond)
+	deadline := time.Now().Add(5 * time.Second) // generous: only a goroutine that really stays costs this time
 	for goroutinesContaining("(*scope).reportLoop") > 0 && time.Now().Before(deadline) {
 		time.Sleep(200 * time.Microsecond)
 	}
